@@ -675,6 +675,11 @@ fn setup_disk(case: &Case) -> Result<(), String> {
                     let an = case.universe[a].clone();
                     r.disk.zi_symlink(&an, &target);
                 }
+                if case.decoys != 0 {
+                    r.disk
+                        .zi_decoys(case.decoys)
+                        .map_err(|e| format!("decoys: {e}"))?;
+                }
             }
             Backend::Concatenated => {
                 let entries: Vec<(String, Vec<u8>)> = case
@@ -778,5 +783,6 @@ pub fn content_summary(c: &Content) -> String {
         Content::Synth { k, tr } => format!("synth(k={k},tr={tr})"),
         Content::Real(i) => format!("real({})", zonegen::REAL_TZIF[*i % zonegen::REAL_TZIF.len()].0),
         Content::Garbage(b) => format!("garbage({b})"),
+        Content::Truncated { k, len } => format!("truncated(k={k},len={len})"),
     }
 }
